@@ -881,12 +881,17 @@ def _run(ctx, root):
                 ctx.violation('wrong-module', 'recovery request for source %d (digest %s) returned a module built from %s'
                               % (i, sha(srcs[i]), info), sig('wrong-module', phase=2))
                 return
-            ctx.check(a.proc.ncythonize <= 1, 'recovery-needs-several-builds',
-                      '%d builds for one request' % a.proc.ncythonize, sig('liveness'))
-            if attempt == 1:
-                ctx.check(a.proc.ncythonize == 0, 'completed-entry-not-reused',
-                          'second fresh process rebuilt source %d although the first had just completed it' % i,
-                          sig('reuse'))
+            # bounded liveness: a fault-free request terminates after a bounded number of builds.  The property
+            # does not say "one" (an implementation may try to re-use a leftover, fail, clean up and build again),
+            # so the bound is generous; more than one build is only counted.
+            ctx.check(a.proc.ncythonize <= 3, 'recovery-needs-many-builds',
+                      '%d builds for one fault-free request' % a.proc.ncythonize, sig('liveness'))
+            if a.proc.ncythonize > 1:
+                ctx.count('probe.recovery.more-than-one-build')
+            if attempt == 1 and a.proc.ncythonize:
+                # not demanded by the property (it forbids overwriting a completed entry, it does not demand that
+                # the entry is re-used): counted only
+                ctx.count('probe.completed-entry-not-reused')
             ctx.count('recovery.requests.ok')
     if state['overwritten'] is None:
         state['overwritten'] = monitor(w)
